@@ -38,8 +38,10 @@ def gen_pdf(g, positive=True, allow_known=False):
     return x.astype(float), numpy.asarray(y, dtype=float), kind
 
 
-def make(x, y, k=1):
+def make(x, y, k=1, ext=None):
     from ixpeobssim.core.rand import xUnivariateGenerator, xUnivariateGeneratorLinear
+    if ext is not None:      # the extrapolation mode of the *density* outside the grid (0 extrapolate, 1 zeros, 3 constant): the quantile machinery must not depend on it
+        return xUnivariateGeneratorLinear(x, y, ext=ext) if k == 1 else xUnivariateGenerator(x, y, k=k, ext=ext)
     return xUnivariateGeneratorLinear(x, y) if k == 1 else xUnivariateGenerator(x, y, k=k)
 
 
@@ -56,7 +58,7 @@ def o_generator(a):
     x, y = numpy.array(a['x']), numpy.array(a['y'])
     if a.get('dtype'):                   # grids of channel numbers, pixel indices, single-precision columns: the same values in another type
         x = x.astype(a['dtype'])
-    gen = make(x, y, 1)
+    gen = make(x, y, 1, a.get('ext'))
     x = x.astype(float)
     u = numpy.linspace(0., 1., 1001)
     p = gen.ppf(u)
@@ -123,12 +125,18 @@ def o_aux(a):
     rel = lambda aa: (numpy.asarray(aa, dtype=float) - off) / span
     scale = a.get('scale', 1.)       # a density need not be normalised: fluxes in physical units are 1e-9, 1e-12 …
     pdf = lambda xx, aa: scale * ((1. + rel(aa)) * numpy.exp(-0.5 * ((xx - 3. - 4. * rel(aa)) / (1. + rel(aa))) ** 2) + 0.05)
+    if a.get('counts'):
+        # a table of counts (a two-dimensional histogram used as the density): integer values, handed over in an integer type
+        pdf0 = pdf
+        pdf = lambda xx, aa: numpy.round(2000. * pdf0(xx, aa) / scale)
     kx, ky = a.get('kx', 1), a.get('ky', 1)
     if a.get('coarse'):
         x = numpy.array([0., 0.5, 1., 2., 3., 4., 5., 6., 7., 8.5, 10.])
         nx = len(x)
     if a.get('table'):
         table = numpy.array([[float(pdf(xi, ai)) for ai in aux] for xi in x])          # documented layout: (len(rv), len(aux))
+        if a.get('counts'):
+            table = table.astype(a['counts'])
         gen = xUnivariateAuxGenerator(x, aux, table, kx=kx, ky=ky)
     else:
         gen = xUnivariateAuxGenerator(x, aux, pdf, kx=kx, ky=ky)
@@ -160,7 +168,7 @@ def o_aux(a):
         if numpy.abs(s1 - sl).max() > (0.05 if av not in aux else 1e-9) * sl.max():
             bad.append('aux=%r: slice() differs from the density at that auxiliary value by %.3g' % (av, float(numpy.abs(s1 - sl).max())))
     try:
-        xUnivariateAuxGenerator(x, aux, lambda xx, aa: pdf(xx, aa) - 0.5 * scale, kx=kx, ky=ky)
+        xUnivariateAuxGenerator(x, aux, lambda xx, aa: pdf(xx, aa) - 0.5 * (scale if not a.get('counts') else 2000.), kx=kx, ky=ky)
         bad.append('a bivariate density that is negative somewhere was accepted')
     except SystemExit:
         pass
@@ -207,6 +215,12 @@ def explore(chk, budget=1):
             run_oracle(chk, 'generator', dict(x=x.tolist(), y=y.tolist(), kind=kind, bounds=bounds[:1], dtype=str(g.choice(['int64', 'int32', 'float32']))))
         elif i % 5 == 0:
             run_oracle(chk, 'generator', dict(x=x.tolist(), y=y.tolist(), kind=kind, bounds=bounds[:1], dtype='float32'))
+        if (y > 0).all() and i % 2 == 0:
+            # the extrapolation option of the density, and bounds up to a fraction of a grid step beyond the grid (a phase grid without its end point
+            # sampled up to 1.0): the samples stay inside the requested bounds
+            fa, fb = float(g.uniform(0.05, 0.9)), float(g.uniform(0.05, 0.9))
+            beyond = [(None, float(x[-1] + fb * (x[-1] - x[-2]))), (float(x[0] - fa * (x[1] - x[0])), None), (inner[0], float(x[-1] + fb * (x[-1] - x[-2])))]
+            run_oracle(chk, 'generator', dict(x=x.tolist(), y=y.tolist(), kind=kind, bounds=bounds[:2] + beyond, ext=int(g.choice([0, 1, 3]))))
         # model correspondence
         us = numpy.concatenate([[0., 1.], g.uniform(0, 1, 12)])
         xs = numpy.concatenate([[x[0], x[-1]], g.uniform(x[0], x[-1], 8)])
@@ -222,7 +236,7 @@ def explore(chk, budget=1):
             yn = y.copy()
             yn[int(g.integers(0, len(y)))] = -float(g.choice([1e-9, 0.5]))
             run_oracle(chk, 'negative', dict(x=x.tolist(), y=yn.tolist(), k=int(g.choice([1, 3])) if len(x) > 3 else 1))
-    for extra in (dict(), dict(scale=1e-9), dict(scale=1e-12, table=True, nx=41, na=6), dict(offset=1.5e8, span=5000., na=11), dict(table=True, nx=41, na=6), dict(table=True, nx=41, na=41), dict(table=True, nx=24, na=24), dict(table=True, nx=16, na=16, offset=1.5e8, span=5000.),
+    for extra in (dict(), dict(scale=1e-9), dict(scale=1e-12, table=True, nx=41, na=6), dict(offset=1.5e8, span=5000., na=11), dict(table=True, nx=41, na=6), dict(table=True, nx=41, na=41), dict(table=True, nx=24, na=24), dict(table=True, nx=16, na=16, offset=1.5e8, span=5000.), dict(table=True, nx=41, na=6, counts='int64'), dict(table=True, nx=24, na=9, counts='uint16'), dict(table=True, nx=41, na=6, counts='float32'),
                   dict(kx=1, ky=3, coarse=True), dict(kx=2, ky=2, coarse=True), dict(kx=3, ky=3), dict(kx=3, ky=1, coarse=True), dict(kx=1, ky=1, coarse=True), dict(kx=2, ky=1)):
         run_oracle(chk, 'aux', dict(seed=int(g.integers(1, 10 ** 6)), **extra))
     replies = drv.run()
